@@ -76,6 +76,8 @@ def coq_makefile():
 def coq_make(targets=None, timeout=1500):
     """Full .vo build of the given targets (default: everything). Returns (ok, log)."""
     coq_makefile()
+    os.makedirs(os.path.join(OCAML, "gen"), exist_ok=True)
+    os.makedirs(os.path.join(COQ, "Gen"), exist_ok=True)
     args = ["make", "-j16"] + (targets or [])
     rc, out = sh(args, timeout=timeout, cwd=COQ)
     return rc == 0, out
